@@ -76,15 +76,16 @@ Proof.
 Qed.
 
 (* ---- a child step never touches the parent side ------------------------------------------ *)
-Lemma c_do_ps : forall b s a, ps (c_do b s a) = ps s.
+Lemma c_do_ps : forall P b s a s', c_do P b s a = Some s' -> ps s' = ps s.
 Proof.
-  intros b s a. unfold c_do, c_die. destruct (c_payload b (cs s) a); [|reflexivity].
-  destruct (b_big b); [destruct (c_sending (cs s))|]; reflexivity.
+  intros P b s a s' H. unfold c_do, c_die in H. destruct (c_payload b (cs s) a); [|inversion H; reflexivity].
+  destruct (b_big b); [destruct (c_sending (cs s)); [destruct (parent_receiving P s); [|discriminate]|]|];
+    inversion H; reflexivity.
 Qed.
 
-Lemma child_step_ps : forall C b s s', c_step C b s = Some s' -> ps s' = ps s.
+Lemma child_step_ps : forall P C b s s', c_step P C b s = Some s' -> ps s' = ps s.
 Proof.
-  intros C b s s' H. unfold c_step in H.
+  intros P C b s s' H. unfold c_step in H.
   destruct (c_stat (cs s)); try discriminate.
   destruct (nth_error C (c_pc (cs s))) as [op|]; [|inversion H; reflexivity].
   destruct op.
@@ -92,8 +93,8 @@ Proof.
   - destruct (b_async b && negb aware); [inversion H; reflexivity|].
     destruct (b_out b); inversion H; reflexivity.
   - destruct (c_pend (cs s)); try (inversion H; reflexivity).
-    destruct (existsb (b_isa b) classes); inversion H; [apply c_do_ps | reflexivity].
-  - destruct (c_pend (cs s)); inversion H; try reflexivity; apply c_do_ps.
+    destruct (existsb (b_isa b) classes); [eapply c_do_ps; eauto | inversion H; reflexivity].
+  - destruct (c_pend (cs s)); try (inversion H; reflexivity); eapply c_do_ps; eauto.
   - destruct (c_pend (cs s)); inversion H; reflexivity.
 Qed.
 
@@ -313,7 +314,7 @@ Section Global.
       unfold parent_enabled, step_enabled in Hp. destruct (lstep P C (g_beh v) 0 LParent (g_loc v)); [reflexivity | discriminate].
     - exists (GChild i). split; [eapply choice_in; eauto|].
       cbn [gstep]. rewrite Hv, (env_zero behs g i H).
-      pose proof (child_free P C strict cstrict Hcheck (g_beh v) (g_loc v) Hloc Hc) as Hf. unfold step_enabled in Hf.
+      pose proof Hc as Hf. unfold child_enabled, step_enabled in Hf.
       destruct (lstep P C (g_beh v) 0 LChild (g_loc v)); [reflexivity | discriminate].
   Qed.
 
